@@ -150,6 +150,15 @@ class Sim:
                     nxt = name
                 else:
                     nxt = self.prng.choice(r)
+            elif pn == 'pfu':
+                # post-fault uniform: long quiet stretches until an injected fault has fired, then maximal mixing of main and the surviving
+                # thread - the window in which failure hand-over and cleanup code runs
+                if any(f.get('fired') for f in getattr(self, 'faults', ())):
+                    nxt = self.prng.choice(r)
+                elif name in r and self.prng.random() >= 0.05:
+                    nxt = name
+                else:
+                    nxt = self.prng.choice([x for x in r if x != name] or r)
             elif pn == 'pct':
                 # PCT-style: strict priorities per role, lowered at a few seeded change points
                 pr = self.pct_prio
@@ -475,7 +484,7 @@ def _w(r, items):
     return items[-1][0]
 
 
-POLICIES = ['uniform', 'sticky', 'starve1', 'starve2', 'alternate', 'main_first', 'main_last', 'pct', 'pct']
+POLICIES = ['uniform', 'sticky', 'starve1', 'starve2', 'alternate', 'main_first', 'main_last', 'pct', 'pct', 'pfu']
 
 
 def gen_policy(r, name=None):
@@ -521,6 +530,10 @@ def generate(prop, seed, tier):
            'rule_flip': None, 'stall': None, 'faults': []}
     npol = 4 if not faulty else 2
     names = sr.sample(POLICIES, npol)
+    if faulty and 'pfu' not in names and sr.random() < 0.5:
+        names[-1] = 'pfu'
+    if not faulty and 'pfu' in names:
+        names[names.index('pfu')] = 'uniform' if 'uniform' not in names else 'sticky'
     scn['policies'] = [gen_policy(sr, nme) for nme in names]
     if scn['tdtype'] == 'int8':
         scn['amp'] = min(scn['amp'], 254)
